@@ -183,6 +183,67 @@ package framework
 //@   ensures [wfRev] wfRev(s)
 //@   ensures [wfBack] wfBack(s)
 //@   ensures [invalidSkipped] old(undone(s, index)) ==> result == nil && len(s.operations) == old(len(s.operations)) && reversals() == old(reversals())
+//@   ensures [atMostOneReversal] old(reversals()) <= reversals() && reversals() <= old(reversals()) + 1
 //@   ensures [validReversedOnce] old(noUndoFor(s, index)) ==> reversals() == old(reversals()) + 1
 //@   ensures [appendsUndoEntry] old(noUndoFor(s, index)) && result == nil ==> len(s.operations) > old(len(s.operations)) && targets(s, len(s.operations) - 1, index)
+//@ end
+
+//@ func (*Statement).Checkpoint
+//@   props C13
+//@   requires s != nil
+//@   pure
+//@   ensures result == len(s.operations)
+//@ end
+
+//@ func (*Statement).clearOperations
+//@   props C13
+//@   requires s != nil
+//@   modifies s.operations
+//@   ensures len(s.operations) == 0
+//@ end
+
+// C13: "rolls back to a checkpoint": post len' == cp; entries below the checkpoint are untouched;
+// every entry >= cp is visited once, last to first (the loop variant is the entry index), each still
+// valid one is reversed exactly once (undoOperation), already undone ones are skipped.
+//@ func (*Statement).Rollback
+//@   props C13
+//@   requires s != nil && wfLog(s)
+//@   modifies *
+//@   loop 1
+//@     modifies *
+//@     invariant cp - 1 <= i && i < old(len(s.operations)) && 0 <= cp
+//@     invariant len(s.operations) >= old(len(s.operations))
+//@     invariant forall j int :: 0 <= j && j < old(len(s.operations)) ==> s.operations[j] == old(s.operations[j])
+//@     invariant wfKnown(s)
+//@     invariant wfRev(s)
+//@     invariant wfBack(s)
+//@     invariant reversals() - old(reversals()) <= old(len(s.operations)) - 1 - i
+//@     decreases i - cp + 1
+//@   ensures [badCheckpoint] cp < 0 || cp > old(len(s.operations)) ==> result != nil && s.operations == old(s.operations) && reversals() == old(reversals())
+//@   ensures [lenIsCheckpoint] 0 <= cp && cp <= old(len(s.operations)) && result == nil ==> len(s.operations) == cp
+//@   ensures [belowCheckpointKept] 0 <= cp && cp <= old(len(s.operations)) ==> forall j int :: 0 <= j && j < cp ==> s.operations[j] == old(s.operations[j])
+//@   ensures [failedKeepsLog] result != nil ==> len(s.operations) >= old(len(s.operations))
+//@   ensures [atMostOncePerEntry] 0 <= cp && cp <= old(len(s.operations)) ==> reversals() - old(reversals()) <= old(len(s.operations)) - cp
+//@   ensures [wfKnown] wfKnown(s)
+//@   ensures [wfRev] wfRev(s)
+//@   ensures [wfBack] wfBack(s)
+//@ end
+
+// C13: "any sequence ... that an action later discards": post len' == 0 on every path.
+//@ func (*Statement).Discard
+//@   props C13
+//@   requires s != nil && wfLog(s)
+//@   modifies *
+//@   loop 1
+//@     modifies *
+//@     invariant 0 - 1 <= i && i < old(len(s.operations))
+//@     invariant len(s.operations) >= old(len(s.operations))
+//@     invariant wfKnown(s)
+//@     invariant wfRev(s)
+//@     invariant wfBack(s)
+//@     invariant reversals() - old(reversals()) <= old(len(s.operations)) - 1 - i
+//@     decreases i + 1
+//@   ensures [logEmpty] len(s.operations) == 0
+//@   ensures [atMostOncePerEntry] reversals() - old(reversals()) <= old(len(s.operations))
+//@   ensures [emptyIsNoop] old(len(s.operations)) == 0 ==> reversals() == old(reversals())
 //@ end
